@@ -45,25 +45,31 @@ HTTP_NAMES = ["HTTPChannel", "_ChunkedTransferDecoder", "_IdentityTransferDecode
               "_chunkExtChars", "toChunk", "Request", "_getContentFile"]
 
 
-class _NoCache:
-    """stands in for _NameEncoder._canonicalHeaderCache in the lifted world: a cache keyed by header
-    names would hash (= realise) a name containing a symbolic byte and would carry state from one
-    explored path to the next; with this object every name takes the uncached code path"""
+class _NameCache:
+    """stands in for _NameEncoder._canonicalHeaderCache in the lifted world: a dict keyed by header
+    names would hash (= realise) a name containing a symbolic byte; names with symbolic content take
+    the uncached code path, concrete names are cached exactly as in the real class"""
+
+    def __init__(self):
+        self.d = {}
 
     def get(self, k, d=None):
+        if isinstance(k, str) or lbytes._is_conc(k.s):
+            return self.d.get(k, d)
         return d
 
     def __len__(self):
-        return 1 << 30
+        return len(self.d)
 
     def __setitem__(self, k, v):
-        pass
+        if isinstance(k, str) or (lbytes._is_conc(k.s) and lbytes._is_conc(v.s)):
+            self.d[k] = v
 
 
 if LH.__real__:
     Headers = LH.Headers
 else:
-    LH._nameEncoder._canonicalHeaderCache = _NoCache()
+    LH._nameEncoder._canonicalHeaderCache = _NameCache()
     LH._NameEncoder._caseMappings = lbytes.SymDict(LH._NameEncoder._caseMappings)
 
     class Headers(LH.Headers):
